@@ -4,6 +4,7 @@ import (
 	"errors"
 	"fmt"
 	"net/http"
+	"net/url"
 	"strings"
 	"time"
 
@@ -325,5 +326,127 @@ func runC04(c *core.Ctx) {
 				t.Input("soap_reply", string(sent))
 			}
 		})
+	}
+
+	// the samlsp middleware: the outstanding IDs are those of the tracking cookies the browser presents.
+	// nTracked flows are started through the real middleware; every InResponseTo choice (per started flow, foreign, empty, absent, prefix)
+	// at the Response and at the confirmation x presented-cookie subset x AllowIDPInitiated is POSTed to /saml/acs.
+	c.Group("middleware-acs")
+	for _, idpInit := range []bool{false, true} {
+		for nTracked := 0; nTracked <= 2; nTracked++ {
+			idpInit, nTracked := idpInit, nTracked
+			type mwIRT struct {
+				name string
+				f    func(ids []string) *string
+			}
+			mwIRTs := []mwIRT{
+				{"flow0", func(ids []string) *string {
+					if len(ids) > 0 {
+						return samlgen.S(ids[0])
+					}
+					return samlgen.S("id-never-issued")
+				}},
+				{"flow1", func(ids []string) *string {
+					if len(ids) > 1 {
+						return samlgen.S(ids[1])
+					}
+					return samlgen.S("id-never-issued-1")
+				}},
+				{"foreign", func([]string) *string { return samlgen.S("id-foreign-request") }},
+				{"empty", func([]string) *string { return samlgen.S("") }},
+				{"absent", func([]string) *string { return nil }},
+				{"prefix", func(ids []string) *string {
+					if len(ids) > 0 {
+						return samlgen.S(ids[0][:len(ids[0])-3])
+					}
+					return samlgen.S("id-")
+				}},
+			}
+			for ri := range mwIRTs {
+				for ci := range mwIRTs {
+					for present := 0; present < 1<<uint(nTracked); present++ {
+						for _, lay := range layouts {
+							ri, ci, present, lay := ri, ci, present, lay
+							key := fmt.Sprintf("middleware/idpinit=%v/tracked=%d/presented=%02b/resp=%s/conf=%s/lay=%s", idpInit, nTracked, present, mwIRTs[ri].name, mwIRTs[ci].name, lay)
+							c.Case(key, func(t *core.T) {
+								w := newC17World(c17Cfg{binding: "redirect", scheme: "https", key: "sp2048", rsf: "nil"})
+								w.m.ServiceProvider.AllowIDPInitiated = idpInit
+								st := &c17State{jar: map[string]c17Cookie{}, ever: map[string]string{}}
+								for k := 0; k < nTracked; k++ {
+									st.flows = append(st.flows, c17Flow{url: w.urls[k], user: w.users[k]})
+								}
+								var ids []string
+								for k := 0; k < nTracked; k++ {
+									if bad := c17Start(w, st, k); len(bad) > 0 {
+										t.Fail("C04/middleware/start-failed", "%v", bad)
+										return
+									}
+									ids = append(ids, st.flows[k].reqID)
+								}
+								cookies := map[string]string{}
+								var presentedIDs []string
+								for k := 0; k < nTracked; k++ {
+									if present&(1<<uint(k)) != 0 {
+										cookies["saml_"+st.flows[k].index] = st.flows[k].cookieVal
+										presentedIDs = append(presentedIDs, ids[k])
+									}
+								}
+								resp := samlgen.DefaultResponse()
+								resp.InResponseTo = mwIRTs[ri].f(ids)
+								resp.Destination = samlgen.S(w.root + "/saml/acs")
+								a := samlgen.DefaultAssertion()
+								a.Confirmations[0].InResponseTo = mwIRTs[ci].f(ids)
+								a.Confirmations[0].Recipient = samlgen.S(w.root + "/saml/acs")
+								a.Audiences = [][]string{{w.root + "/saml/metadata"}}
+								doc := samlgen.Doc(harness.BuildResponse(resp, []*samlgen.Assertion{a}, lay, idp1(), nil))
+								form := url.Values{"SAMLResponse": {b64(doc)}}
+								// RelayState names the flow the Response answers, when that flow's cookie is presented
+								for k := 0; k < nTracked; k++ {
+									if resp.InResponseTo != nil && *resp.InResponseTo == ids[k] {
+										form.Set("RelayState", st.flows[k].index)
+									}
+								}
+								rep := w.do(0, "POST", "/saml/acs", cookies, form, "c04mw")
+								t.Impl(w.impl)
+								if rep.panic != "" {
+									t.Fail("C04/middleware/panic/"+core.PanicSite(rep.panic), "%s", rep.panic)
+									return
+								}
+								session := false
+								for _, ck := range rep.cookies {
+									if ck.Name == "token" && ck.Value != "" {
+										session = true
+									}
+								}
+								v := core.MustReject
+								if inSet(resp.InResponseTo, presentedIDs) && inSet(a.Confirmations[0].InResponseTo, presentedIDs) {
+									v = core.MustAccept
+									if form.Get("RelayState") == "" || cookies["saml_"+form.Get("RelayState")] == "" {
+										v = core.DontCare
+									}
+								} else if idpInit {
+									v = core.DontCare
+								}
+								t.Modelled(v)
+								t.Compared()
+								t.NonTrivial()
+								t.Outcome(fmt.Sprintf("status=%d session=%v", rep.code, session))
+								switch {
+								case v == core.MustReject && session:
+									t.Fail("C04/middleware/session-for-unanswered-request", "%s: a session was established although InResponseTo (Response %s, confirmation %s) is not among the request IDs of the presented tracking cookies %q (status %d)", key, mwIRTs[ri].name, mwIRTs[ci].name, presentedIDs, rep.code)
+								case v == core.MustAccept && !session:
+									t.Fail("C04/middleware/valid-answer-refused", "%s: the response answers a tracked request whose cookie is presented, yet no session was established (status %d)", key, rep.code)
+								}
+								if t.Failed() {
+									t.Input("response_xml", string(doc))
+									t.Input("cookies", fmt.Sprint(cookies))
+								}
+								t.Sample(map[string]interface{}{"case": key, "model": v.String(), "session": session, "status": rep.code})
+							})
+						}
+					}
+				}
+			}
+		}
 	}
 }
